@@ -239,6 +239,338 @@ theorem walk_each_once (h : StrictTotal lt) (matched : List κ) (hnd : matched.N
   have hp : (sortKeys lt matched).Perm matched := by rw [sortKeys_eq]; exact isort_perm_self matched
   exact ⟨pages, hw, by rw [hflat]; exact hp, by rw [hflat]; exact hp.nodup_iff.mpr hnd⟩
 
+/-! ### totals -/
+
+theorem filter_split_length (p : κ → Bool) (l : List κ) :
+    (l.filter p).length + (l.filter (fun x => !p x)).length = l.length := by
+  induction l with
+  | nil => rfl
+  | cons x xs ih =>
+    by_cases hp : p x = true
+    · simp [hp]; omega
+    · simp [hp]; omega
+
+theorem pageOf_total (top : List κ) (limit ret tot : Nat) (r : Resp κ)
+    (hp : pageOf top limit ret tot = .ok r) : r.total = tot := by
+  unfold pageOf at hp
+  split at hp
+  · split at hp <;> (injection hp with hp; subst hp; rfl)
+  · injection hp with hp; subst hp; rfl
+
+/-- `returned` of the cursor counts the matches at or before the cursor key (what a walk from
+the first page maintains, see `countsPrefix_of_curAt`) -/
+def CountsPrefix (lt : κ → κ → Bool) (matched : List κ) (cur : Option (Cur κ)) : Prop :=
+  match cur with
+  | none => True
+  | some c => c.returned = (matched.filter (fun k => !lt c.key k)).length
+
+/-- **total_le** — `total_hits_estimate` never exceeds the number of matches, whatever a pruning
+executor skipped, and is exact when nothing was skipped (exhaustive execution). -/
+theorem total_le (matched : List κ) (cur : Option (Cur κ)) (limit skipped : Nat) (r : Resp κ)
+    (hc : CountsPrefix lt matched cur) (hp : page lt matched cur limit skipped = .ok r) :
+    r.total ≤ matched.length ∧ (skipped = 0 → r.total = matched.length) := by
+  unfold page at hp
+  split at hp
+  · cases hp
+  · split at hp
+    · cases hp
+    · have ht := pageOf_total _ _ _ _ _ hp
+      cases cur with
+      | none =>
+        simp only [afterCursor, curReturned] at ht
+        constructor
+        · omega
+        · intro h0; omega
+      | some c =>
+        have hc' : c.returned = (matched.filter (fun k => !lt c.key k)).length := hc
+        have hs := filter_split_length (fun k => lt c.key k) matched
+        simp only [afterCursor, curReturned] at ht
+        constructor
+        · omega
+        · intro h0; omega
+
+/-- the cursors handed out along a walk count exactly the hits returned so far -/
+theorem countsPrefix_of_curAt (h : StrictTotal lt) (matched : List κ) (hnd : matched.Nodup)
+    (pre suf : List κ) (hsplit : sortKeys lt matched = pre ++ suf) (cur : Option (Cur κ))
+    (hcur : CurAt cur pre) : CountsPrefix lt matched cur := by
+  cases cur with
+  | none => trivial
+  | some c =>
+    obtain ⟨hlast, hret⟩ := hcur
+    obtain ⟨ini, hini⟩ := List.getLast?_eq_some_iff.mp hlast
+    show c.returned = _
+    have hperm : (sortKeys lt matched).Perm matched := by
+      rw [sortKeys_eq]; exact isort_perm_self matched
+    have hasc : Asc lt (ini ++ c.key :: suf) := by
+      have : Asc lt (sortKeys lt matched) := by rw [sortKeys_eq]; exact isort_asc h matched hnd
+      rw [hsplit, hini, List.append_assoc] at this
+      exact this
+    have hf : ((sortKeys lt matched).filter (fun k => lt c.key k)) = suf := by
+      rw [hsplit, hini, List.append_assoc]
+      exact filter_gt_sorted h c.key ini suf hasc
+    have h1 := filter_split_length (fun k => lt c.key k) matched
+    have h2 : (matched.filter (fun k => lt c.key k)).length = suf.length := by
+      rw [← hf]; exact ((hperm.filter _).length_eq).symm
+    have h3 : pre.length + suf.length = matched.length := by
+      have := hperm.length_eq
+      rw [hsplit, List.length_append] at this
+      exact this
+    omega
+
 end Walk
+
+/-! ## B. safety of `decode_cursor` -/
+
+theorem parseScore_ok (raw : Bytes) (c : ScoreCursor) (hp : parseScore raw = .ok c) :
+    c.version = cursorVersion ∧ c.returned ≤ maxCursorAdvance := by
+  unfold parseScore at hp
+  split at hp
+  · cases hp
+  · split at hp
+    · cases hp
+    · split at hp
+      · cases hp
+      · split at hp
+        · cases hp
+        · rename_i hv hr
+          injection hp with hp
+          subst hp
+          simp only [Decidable.not_not] at hv
+          exact ⟨hv, Nat.le_of_not_gt hr⟩
+    · cases hp
+
+theorem decodeScore_ok (req : Req) (raw : Bytes) (c : ScoreCursor) :
+    decodeScore req raw = .ok c ↔ parseScore raw = .ok c ∧ c.generation = req.generation := by
+  unfold decodeScore
+  cases hp : parseScore raw with
+  | ok c0 =>
+    by_cases hg : c0.generation = req.generation
+    · simp only [hg, ne_eq, not_true_eq_false, if_false, Dec.ok.injEq]
+      constructor
+      · intro h; subst h; exact ⟨rfl, hg⟩
+      · intro h; exact h.1
+    · simp only [ne_eq, hg, not_false_eq_true, if_true, Dec.ok.injEq]
+      constructor
+      · intro h; cases h
+      · intro h; obtain ⟨h1, h2⟩ := h; subst h1; exact absurd h2 hg
+  | error e => simp
+  | unmodelled => simp
+
+theorem checkSort_ok (req : Req) (c c' : SortCursor) :
+    checkSort req c = .ok c' ↔
+      c' = c ∧ c.version = sortCursorVersion ∧ c.generation = req.generation ∧
+      c.planHash = req.planHash ∧ c.returned ≤ maxCursorAdvance ∧ c.values.length = req.planLen := by
+  unfold checkSort
+  by_cases h1 : c.version = sortCursorVersion
+  · by_cases h2 : c.generation = req.generation
+    · by_cases h3 : c.planHash = req.planHash
+      · by_cases h4 : c.returned ≤ maxCursorAdvance
+        · by_cases h5 : c.values.length = req.planLen
+          · have h4' : ¬ c.returned > maxCursorAdvance := by omega
+            have e : (if c.version ≠ sortCursorVersion then Dec.error DecErr.version
+                else if c.generation ≠ req.generation then Dec.error DecErr.generation
+                else if c.planHash ≠ req.planHash then Dec.error DecErr.planHash
+                else if c.returned > maxCursorAdvance then Dec.error DecErr.advance
+                else if c.values.length ≠ req.planLen then Dec.error DecErr.arity
+                else Dec.ok c) = Dec.ok c := by
+              simp [h1, h2, h3, h4', h5]
+            rw [e]
+            constructor
+            · intro h; injection h with h; exact ⟨h.symm, h1, h2, h3, h4, h5⟩
+            · intro h; rw [h.1]
+          · have h4' : ¬ c.returned > maxCursorAdvance := by omega
+            simp [h1, h2, h3, h4', h5]
+        · have h4' : c.returned > maxCursorAdvance := by omega
+          simp [h1, h2, h3, h4', h4]
+      · simp [h1, h2, h3]
+    · simp [h1, h2]
+  · simp [h1]
+
+theorem decodeSort_ok (req : Req) (raw : Bytes) (c : SortCursor) :
+    decodeSort req raw = .ok c ↔ parseSort raw = .ok c ∧ checkSort req c = .ok c := by
+  unfold decodeSort
+  cases hp : parseSort raw with
+  | ok c0 =>
+    simp only [Dec.ok.injEq]
+    constructor
+    · intro h
+      have := (checkSort_ok req c0 c).mp h
+      obtain ⟨e, _⟩ := this
+      subst e
+      exact ⟨rfl, h⟩
+    · intro h; obtain ⟨e, h2⟩ := h; subst e; exact h2
+  | error e => simp
+  | unmodelled => simp
+
+/-- the successful outcomes of `decode_cursor`, spelled out -/
+theorem decodeCursor_ok (req : Req) (raw : Bytes) (st : CursorState) :
+    decodeCursor req raw = .ok st ↔
+      (req.scoreFast = true ∧ ∃ c, parseScore raw = .ok c ∧ c.generation = req.generation ∧
+        st = { values := [.score c.scoreBits], segmentOrd := c.segmentOrd, docId := c.docId,
+               returned := c.returned, generation := c.generation, planHash := none }) ∨
+      (req.scoreFast = false ∧ ∃ c, parseSort raw = .ok c ∧ checkSort req c = .ok c ∧
+        st = { values := c.values, segmentOrd := c.segmentOrd, docId := c.docId,
+               returned := c.returned, generation := c.generation, planHash := some c.planHash }) := by
+  unfold decodeCursor
+  cases hf : req.scoreFast with
+  | true =>
+    simp only [↓reduceIte]
+    constructor
+    · intro h
+      refine Or.inl ⟨trivial, ?_⟩
+      cases hd : decodeScore req raw with
+      | ok c =>
+        simp only [hd, Dec.ok.injEq] at h
+        have := (decodeScore_ok req raw c).mp hd
+        exact ⟨c, this.1, this.2, h.symm⟩
+      | error e => simp only [hd] at h; cases h
+      | unmodelled => simp only [hd] at h; cases h
+    · intro h
+      rcases h with ⟨_, c, hp, hg, hst⟩ | ⟨hx, _⟩
+      · have := (decodeScore_ok req raw c).mpr ⟨hp, hg⟩
+        simp only [this, hst]
+      · cases hx
+  | false =>
+    simp only [Bool.false_eq_true, ↓reduceIte]
+    constructor
+    · intro h
+      refine Or.inr ⟨trivial, ?_⟩
+      cases hd : decodeSort req raw with
+      | ok c =>
+        simp only [hd, Dec.ok.injEq] at h
+        have := (decodeSort_ok req raw c).mp hd
+        exact ⟨c, this.1, this.2, h.symm⟩
+      | error e => simp only [hd] at h; cases h
+      | unmodelled => simp only [hd] at h; cases h
+    · intro h
+      rcases h with ⟨hx, _⟩ | ⟨_, c, hp, hg, hst⟩
+      · cases hx
+      · have := (decodeSort_ok req raw c).mpr ⟨hp, hg⟩
+        simp only [this, hst]
+
+/-- **cursor_rejected** — `decode_cursor` succeeds only if the cursor's generation equals the
+reader's generation and, for a sort cursor, its plan hash equals the request's plan hash (and the
+advance cap and the arity hold).  Contrapositive: a cursor from another generation or another
+plan hash is an error (or outside the modelled JSON shapes) — never `ok`. -/
+theorem cursor_rejected (req : Req) (raw : Bytes) (st : CursorState)
+    (hd : decodeCursor req raw = .ok st) :
+    st.generation = req.generation ∧ st.returned ≤ maxCursorAdvance ∧
+    (req.scoreFast = true → st.planHash = none ∧ st.values.length = 1) ∧
+    (req.scoreFast = false → st.planHash = some req.planHash ∧ st.values.length = req.planLen) := by
+  rcases (decodeCursor_ok req raw st).mp hd with ⟨hf, c, hp, hg, hst⟩ | ⟨hf, c, hp, hc, hst⟩
+  · subst hst
+    have := parseScore_ok raw c hp
+    refine ⟨hg, this.2, fun _ => ⟨rfl, rfl⟩, ?_⟩
+    intro h0; rw [hf] at h0; cases h0
+  · subst hst
+    obtain ⟨_, _, hg, hh, hr, hl⟩ := (checkSort_ok req c c).mp hc
+    refine ⟨hg, hr, ?_, fun _ => ⟨by rw [hh], hl⟩⟩
+    intro h0; rw [hf] at h0; cases h0
+
+/-- the generation a cursor carries does not depend on who decodes it -/
+theorem decoded_generation_unique (req req' : Req) (raw : Bytes) (st st' : CursorState)
+    (hf : req'.scoreFast = req.scoreFast)
+    (hd : decodeCursor req raw = .ok st) (hd' : decodeCursor req' raw = .ok st') :
+    st'.generation = st.generation := by
+  rcases (decodeCursor_ok req raw st).mp hd with ⟨h1, c, hp, _, hst⟩ | ⟨h1, c, hp, _, hst⟩ <;>
+  rcases (decodeCursor_ok req' raw st').mp hd' with ⟨h2, c', hp', _, hst'⟩ | ⟨h2, c', hp', _, hst'⟩
+  · rw [hp] at hp'; injection hp' with e; subst e; subst hst; subst hst'; rfl
+  · rw [hf, h1] at h2; cases h2
+  · rw [hf, h1] at h2; cases h2
+  · rw [hp] at hp'; injection hp' with e; subst e; subst hst; subst hst'; rfl
+
+/-! ## C. generations: which index operations invalidate a cursor -/
+
+theorem manifestGen_markDeleted (dels : List (Nat × Nat)) (i : Nat) (idx : Index) :
+    manifestGen (markDeleted dels i idx) = manifestGen idx := by
+  induction idx generalizing i with
+  | nil => rfl
+  | cons s r ih => simp [markDeleted, manifestGen, ih]
+
+theorem manifestGen_append_one (idx : Index) (s : Seg) :
+    manifestGen (idx ++ [s]) = max (manifestGen idx) s.generation := by
+  induction idx with
+  | nil => simp [manifestGen]
+  | cons t r ih => simp [manifestGen, ih, Nat.max_assoc]
+
+/-- a commit that writes a segment moves the generation -/
+theorem gen_commit_adds (idx : Index) (dels : List (Nat × Nat)) (adds : Nat) (ha : adds ≠ 0) :
+    manifestGen (commit idx dels adds) = manifestGen idx + 1 := by
+  unfold commit
+  simp only [ha, if_false]
+  rw [manifestGen_append_one, manifestGen_markDeleted]
+  show max (manifestGen idx) (manifestGen idx + 1) = manifestGen idx + 1
+  omega
+
+/-- a delete-only commit keeps the generation — the mechanism behind the known finding -/
+theorem gen_commit_delete_only (idx : Index) (dels : List (Nat × Nat)) :
+    manifestGen (commit idx dels 0) = manifestGen idx := by
+  unfold commit
+  simp [manifestGen_markDeleted]
+
+/-- compaction of at least two segments moves the generation -/
+theorem gen_compact (idx : Index) (h2 : 2 ≤ idx.length) :
+    manifestGen (compact idx) = manifestGen idx + 1 := by
+  unfold compact
+  have : ¬ idx.length ≤ 1 := by omega
+  simp [this, manifestGen]
+
+/-
+Full statement (FALSE for the unchanged code, see `stale_accepted_after_delete_only`):
+
+  theorem stale_rejected (idx : Index) (dels) (adds) (hchg : dels ≠ [] ∨ adds ≠ 0) (req raw st)
+      (h0 : req.generation = manifestGen idx) (hd : decodeCursor req raw = .ok st) :
+      ∀ st', decodeCursor { req with generation := manifestGen (commit idx dels adds) } raw ≠ .ok st'
+
+Proved part: every commit that writes a segment (`adds ≠ 0`; an upsert is a delete plus an
+add) and every compaction that merges ≥ 2 segments.  Missing: delete-only commits.
+-/
+
+/-- **stale_rejected_partial** — a cursor accepted for the index `idx` is not accepted by a
+reader of the index after a commit with at least one added document (same sort plan) -/
+theorem stale_rejected_partial (idx : Index) (dels : List (Nat × Nat)) (adds : Nat) (ha : adds ≠ 0)
+    (req : Req) (raw : Bytes) (st : CursorState) (h0 : req.generation = manifestGen idx)
+    (hd : decodeCursor req raw = .ok st) (st' : CursorState) :
+    decodeCursor { req with generation := manifestGen (commit idx dels adds) } raw ≠ .ok st' := by
+  intro hd'
+  have h1 := (cursor_rejected req raw st hd).1
+  have h2 := (cursor_rejected _ raw st' hd').1
+  have h3 := decoded_generation_unique req
+    { req with generation := manifestGen (commit idx dels adds) } raw st st' rfl hd hd'
+  simp only at h2
+  rw [gen_commit_adds idx dels adds ha] at h2
+  omega
+
+/-- the same for a compaction that merges at least two segments -/
+theorem stale_rejected_compact_partial (idx : Index) (hseg : 2 ≤ idx.length)
+    (req : Req) (raw : Bytes) (st : CursorState) (h0 : req.generation = manifestGen idx)
+    (hd : decodeCursor req raw = .ok st) (st' : CursorState) :
+    decodeCursor { req with generation := manifestGen (compact idx) } raw ≠ .ok st' := by
+  intro hd'
+  have h1 := (cursor_rejected req raw st hd).1
+  have h2 := (cursor_rejected _ raw st' hd').1
+  have h3 := decoded_generation_unique req
+    { req with generation := manifestGen (compact idx) } raw st st' rfl hd hd'
+  simp only at h2
+  rw [gen_compact idx hseg] at h2
+  omega
+
+/-- a cursor of one sort plan presented to a request whose plan has another hash is rejected
+(sort cursors; a score cursor presented to a sort request or vice versa fails to parse, see the
+examples below) -/
+theorem other_plan_rejected (req : Req) (raw : Bytes) (st : CursorState) (hf : req.scoreFast = false)
+    (hd : decodeCursor req raw = .ok st) (h' : Nat) (hne : h' ≠ req.planHash) (st' : CursorState) :
+    decodeCursor { req with planHash := h' } raw ≠ .ok st' := by
+  intro hd'
+  have h1 := ((cursor_rejected req raw st hd).2.2.2 hf).1
+  have h2 := ((cursor_rejected _ raw st' hd').2.2.2 hf).1
+  rcases (decodeCursor_ok req raw st).mp hd with ⟨hx, _⟩ | ⟨_, c, hp, _, hst⟩
+  · rw [hf] at hx; cases hx
+  · rcases (decodeCursor_ok _ raw st').mp hd' with ⟨hx, _⟩ | ⟨_, c', hp', _, hst'⟩
+    · simp only [hf] at hx; cases hx
+    · rw [hp] at hp'; injection hp' with e; subst e
+      subst hst; subst hst'
+      simp only [Option.some.injEq] at h1 h2
+      exact hne (h2.symm.trans h1)
 
 end SL.Cursor
